@@ -322,14 +322,14 @@ theorem emitted_parse (st : Stmt) (p : Params) (col : Option Nat) (fs : Nat)
     parser reads the text back as exactly the statements that were printed, in order. -/
 theorem C11_roundtrip_core (imps : List Imp) (p : Params) (text : Str)
     (h : pretty imps p = .ok text) :
-    ∃ stmts col, getStatements imps.eraseDups p.sepFrom = .ok stmts ∧
+    ∃ stmts col, getStatements (dedup imps) p.sepFrom = .ok stmts ∧
       importColumn stmts p (max 1 p.fromSpaces) = .ok col ∧
       ((∀ st ∈ stmts, validStmt st = true) →
        (∀ st ∈ stmts, noBadParen st p (stArgs p col st).1 (stArgs p col st).2 = true) →
        parseBlock text = some (stmts.flatMap (readBack p col))) := by
   unfold pretty at h
   simp only [] at h
-  by_cases hc : conflicting imps.eraseDups = true
+  by_cases hc : conflicting (dedup imps) = true
   · simp [hc, bind, Except.bind, throw, throwThe, MonadExceptOf.throw] at h
   · simp only [hc, Bool.false_eq_true, if_false] at h
     obtain ⟨stmts, hst, h⟩ := (bind_eq_ok _ _ _).mp h
@@ -375,3 +375,132 @@ theorem C11_roundtrip_core (imps : List Imp) (p : Params) (text : Str)
     intro st hst'
     apply Forall2.map_left
     exact emitted_parse st p _ _ (hvalid st hst') (hnbp st hst')
+
+theorem noBadParen_repaired (st : Stmt) (p : Params) (col : Option Nat) (fs : Nat) (h : p.d2fix = true) :
+    noBadParen st p col fs = true := by simp [noBadParen, h]
+
+theorem readBack_unrepaired (p : Params) (col : Option Nat) (st : Stmt) (h : p.d2fix = false) :
+    readBack p col st = [st] := by simp [readBack, emitted, splitPlain, h]
+
+/-- splitting an overlong plain import into one statement per alias keeps the imports -/
+theorem readBack_imports (p : Params) (col : Option Nat) (st : Stmt) :
+    (readBack p col st).flatMap Stmt.imports = st.imports := by
+  unfold readBack emitted
+  split
+  · simp only [List.flatMap_map, Stmt.imports]
+    induction st.aliases with
+    | nil => rfl
+    | cons a as ih => simpa [List.flatMap_cons] using ih
+  · simp
+
+/-- **C11_roundtrip** — the code as it is now (with the D2 repair).  For every list of imports and every
+    configuration for which `pretty` returns a text: if the statements of the set carry valid Python names,
+    the reference parser reads the text back as the printed statements, in order, (an overlong plain
+    `import a, a as b` as one statement per alias) and these denote exactly the imports of the statements. -/
+theorem C11_roundtrip (imps : List Imp) (p : Params) (text : Str) (hfix : p.d2fix = true)
+    (h : pretty imps p = .ok text) :
+    ∃ stmts col, getStatements (dedup imps) p.sepFrom = .ok stmts ∧
+      importColumn stmts p (max 1 p.fromSpaces) = .ok col ∧
+      ((∀ st ∈ stmts, validStmt st = true) →
+        ∃ back, parseBlock text = some back ∧ back = stmts.flatMap (readBack p col) ∧
+          back.flatMap Stmt.imports = stmts.flatMap Stmt.imports) := by
+  obtain ⟨stmts, col, h1, h2, h3⟩ := C11_roundtrip_core imps p text h
+  refine ⟨stmts, col, h1, h2, fun hv => ⟨_, h3 hv (fun st _ => noBadParen_repaired st p _ _ hfix), rfl, ?_⟩⟩
+  simp only [List.flatMap_assoc, readBack_imports]
+
+/-- **C11_roundtrip_unrepaired** — the tree before `fixes/C11-D2.diff`: the same, under the extra
+    hypothesis that no plain import and no star import is parenthesised (`noBadParen`). -/
+theorem C11_roundtrip_unrepaired (imps : List Imp) (p : Params) (text : Str) (hfix : p.d2fix = false)
+    (h : pretty imps p = .ok text) :
+    ∃ stmts col, getStatements (dedup imps) p.sepFrom = .ok stmts ∧
+      importColumn stmts p (max 1 p.fromSpaces) = .ok col ∧
+      ((∀ st ∈ stmts, validStmt st = true) →
+       (∀ st ∈ stmts, noBadParen st p (stArgs p col st).1 (stArgs p col st).2 = true) →
+        parseBlock text = some stmts) := by
+  obtain ⟨stmts, col, h1, h2, h3⟩ := C11_roundtrip_core imps p text h
+  refine ⟨stmts, col, h1, h2, fun hv hn => ?_⟩
+  rw [h3 hv hn]
+  congr 1
+  clear h1 h2 h3 hv hn
+  induction stmts with
+  | nil => rfl
+  | cons a as ih => simp only [List.flatMap_cons, readBack_unrepaired p col a hfix, ih, List.singleton_append]
+
+/-! ### the hypotheses are satisfiable, and D2 was real -/
+
+section Witness
+
+def pEx : Params := ⟨some 10, .bool true, 1, .never, 4, true, false, true⟩
+
+def impsEx : List Imp :=
+  [⟨"aaaaaaaa".toList, "aaaaaaaa".toList⟩, ⟨"aaaaaaaa.*".toList, "*".toList⟩,
+   ⟨"b.c".toList, "c".toList⟩, ⟨"b.d".toList, "d".toList⟩, ⟨"..e".toList, "f".toList⟩]
+
+/-- a non-trivial input of `C11_roundtrip`: an overlong plain import, an overlong star import, a wrapped
+    `from` import and a relative aliased import, at width 10 -/
+example : (pretty impsEx pEx).toOption =
+    some ("import aaaaaaaa\nfrom ..       import (e as f)\nfrom aaaaaaaa import *\n" ++
+          "from b        import (c,\n                      d)\n").toList := by decide +kernel
+
+example : ((getStatements (dedup impsEx) pEx.sepFrom).toOption.map fun ss => ss.all validStmt) = some true := by
+  decide +kernel
+
+/-- D2 on the unrepaired tree: an overlong plain import is parenthesised … -/
+theorem D2_witness_plain :
+    (pretty [⟨"aaaaaaaa".toList, "aaaaaaaa".toList⟩] { pEx with d2fix := false }).toOption
+      = some "import (aaaaaaaa)\n".toList ∧
+    parseBlock "import (aaaaaaaa)\n".toList = none := by
+  constructor <;> decide +kernel
+
+/-- … and so is an overlong star import; neither text is in the grammar (CPython: SyntaxError). -/
+theorem D2_witness_star :
+    (pretty [⟨"aaaaaaaa.*".toList, "*".toList⟩] { pEx with d2fix := false }).toOption
+      = some "from aaaaaaaa import (*)\n".toList ∧
+    parseBlock "from aaaaaaaa import (*)\n".toList = none := by
+  constructor <;> decide +kernel
+
+/-- the same inputs on the repaired tree -/
+example : (pretty [⟨"aaaaaaaa".toList, "aaaaaaaa".toList⟩, ⟨"aaaaaaaa.*".toList, "*".toList⟩] pEx).toOption
+      = some "import aaaaaaaa\nfrom aaaaaaaa import *\n".toList ∧
+    parseBlock "import aaaaaaaa\nfrom aaaaaaaa import *\n".toList =
+      some [⟨none, [("aaaaaaaa".toList, none)]⟩, ⟨some "aaaaaaaa".toList, [(star, none)]⟩] := by
+  constructor <;> decide +kernel
+
+end Witness
+
+/-! ## T3  the statements denote exactly the imports of the set -/
+
+theorem groups_imports (S : List Imp) (sep : Bool) (keys : List GKey) (groups : List (List Stmt))
+    (hfa : Forall2 (fun k g => groupStmts (S.filter fun i => gkeyOf sep i = k) = .ok g) keys groups)
+    (hrt : ∀ i ∈ S, Imp.fromSplit i.split = i) :
+    (groups.flatten.flatMap Stmt.imports).Perm (keys.flatMap fun k => S.filter fun i => gkeyOf sep i = k) := by
+  induction hfa with
+  | nil => simp
+  | @cons k g ks gs hk _ ih =>
+    simp only [List.flatten_cons, List.flatMap_append, List.flatMap_cons]
+    refine List.Perm.append ?_ ih
+    exact groupStmts_imports _ g hk (fun i hi => hrt i (List.mem_filter.mp hi).1)
+
+/-- **getStatements_imports**: the imports of the statements `get_statements` builds are a permutation of the
+    set (nothing lost, duplicated or merged wrongly), for every set whose members survive
+    `from_split ∘ split` (see `fromSplit_split`). -/
+theorem getStatements_imports (S : List Imp) (sep : Bool) (sts : List Stmt)
+    (h : getStatements S sep = .ok sts) (hrt : ∀ i ∈ S, Imp.fromSplit i.split = i) :
+    (sts.flatMap Stmt.imports).Perm S := by
+  unfold getStatements at h
+  obtain ⟨groups, hg, h⟩ := (bind_eq_ok _ _ _).mp h
+  simp only [pure, Except.pure] at h
+  injection h with h
+  subst h
+  have hfa := mapM_ok_forall₂ _ _ _ hg
+  have hkeys : (isort gkLe (dedup (S.map (gkeyOf sep)))).Perm (dedup (S.map (gkeyOf sep))) := isort_perm _ _
+  have hnd : (isort gkLe (dedup (S.map (gkeyOf sep)))).Nodup := (hkeys.nodup_iff).mpr (nodup_dedup _)
+  have hstep := groups_imports S sep _ groups hfa hrt
+  refine hstep.trans ((group_perm (gkeyOf sep) S _ hnd).trans ?_)
+  apply List.Perm.of_eq
+  rw [List.filter_eq_self]
+  intro i hi
+  simp only [decide_eq_true_eq]
+  exact hkeys.mem_iff.mpr ((mem_dedup _ _).mpr (List.mem_map.mpr ⟨i, hi, rfl⟩))
+
+example : (∀ i ∈ dedup impsEx, Imp.fromSplit i.split = i) := by decide +kernel
